@@ -1089,6 +1089,21 @@ func (w *World) Tamper(path string, data []byte) {
 	ino.pending = nil
 }
 
+// Peek returns the current (volatile) content of a file, nil if it does not exist.
+func (w *World) Peek(path string) []byte {
+	w.mu.Lock()
+	defer w.mu.Unlock()
+	d := w.diskOf(path)
+	if d == nil {
+		return nil
+	}
+	ino, ok := d.names[path]
+	if !ok || ino.isDir {
+		return nil
+	}
+	return append([]byte(nil), ino.data...)
+}
+
 // MutOps returns the number of mutating operations the node's disk has seen.
 func (w *World) MutOps(dir string) int {
 	w.mu.Lock()
